@@ -443,8 +443,8 @@ func runC17(env *lib.Env, rep *lib.Report) {
 	if env.Thorough() {
 		depth = 6
 	}
-	seeds := []string{"empty", "a-with-row+b", "a-with-12-rows+b", "journeys", "journeys-7-tables"}
-	rep.Bounds["depth"] = fmt.Sprintf("quick: 4 from the one-row seed and from the empty directory, 3 from the flushed 12-row seed; thorough: 6 / 5 / 4 (this run: tier depth %d)", depth)
+	seeds := []string{"empty", "a-with-row+b", "a-with-12-rows+b", "journeys", "journeys-7-tables", "a-with-long-log+b"}
+	rep.Bounds["depth"] = fmt.Sprintf("quick: 4 from the one-row seed and from the empty directory, 3 from the flushed 12-row seed, 2 from the seed with a long log (130 single-row statements); thorough: 6 / 5 / 4 / 4 (this run: tier depth %d)", depth)
 	rep.Bounds["seeds"] = seeds
 	rep.Bounds["journeys"] = "from the flushed 12-row seed and from a flushed seed with seven tables (t holding 8 rows): every sequence of 5 (thorough 6) steps over {TICK, UPDATE all rows, UPDATE last row, INSERT, USE b + USE a, USE a, RESTART + USE a}"
 	rep.Bounds["events"] = "CREATE DATABASE a|B, USE a|b|A|B|nosuch (names are case-insensitive), CREATE TABLE t, CREATE TABLE u1/u2/.. (the next unused name), INSERT, UPDATE (all rows), TICK of every live store (including abandoned ones), RESTART; SHOW DATABASES and read-back are checked after every event; the read-back also probes every table name that exists only in another database (must be refused, the store left unlocked)"
@@ -479,6 +479,13 @@ func runC17(env *lib.Env, rep *lib.Report) {
 					script = append(script, "CREATE TABLE u<next>")
 				}
 				for i := 0; i < 7; i++ {
+					script = append(script, "INSERT")
+				}
+			}
+			if seed == "a-with-long-log+b" {
+				// 130 single-row statements: the log of database a is longer than any buffer a reader is likely to
+				// use (4 KiB, 8 KiB with the updates that follow); every restart reads all of it, for every database
+				for i := 0; i < 129; i++ {
 					script = append(script, "INSERT")
 				}
 			}
@@ -535,6 +542,8 @@ func runC17(env *lib.Env, rep *lib.Report) {
 			if env.Thorough() {
 				steps = depth - 1
 			}
+		case "a-with-long-log+b":
+			steps = depth - 2
 		case "a-with-12-rows+b":
 			steps = depth - 1 // the larger, flushed state
 			if env.Thorough() {
